@@ -84,7 +84,7 @@ pub trait StorageTxn: Send {
     fn all_tasks(&mut self) -> (r: Result<Vec<(Uuid, TaskMap)>>)
         requires old(self).inv(),
         ensures final(self).inv(), final(self).st() == old(self).st(),
-            match r { Ok(v) => tasks_listed(v@, old(self).st().tasks), Err(e) => storage_err(e) },
+            match r { Ok(v) => tasks_listed(v@, old(self).st().tasks) && (v@.len() == 0) == (old(self).st().tasks.dom() =~= Set::<Uuid>::empty()), Err(e) => storage_err(e) },
     ;
     fn all_task_uuids(&mut self) -> (r: Result<Vec<Uuid>>)
         requires old(self).inv(),
